@@ -116,14 +116,14 @@ package socks5
 // library escaping), with no post-processing
 //@ func (*ScanResult).MarshalJSON
 //@   sig r
-//@   props C14
+//@   props C14 C01 C02 C08 C09 C12
 //@   observe json.Marshal
 //@   entry row marshal: [call json.Marshal(bind_x) as (b, e)] when ret0 == b && ret1 == e -> exit
 
 // plain-text form of a record: printing never panics, whatever the scanned host put into the record (C09 C08)
 //@ func (*ScanResult).String
 //@   sig r
-//@   props C09 C08
+//@   props C09 C08 C01 C02 C12 C14
 
 // option constructors: each returns its own option closure over exactly its argument (verified here, inlined at call sites)
 //@ func WithDataTimeout
